@@ -470,6 +470,10 @@ class FluxCase:
         if rng.random() < 0.4:
             self.model = fresh_str(self.model)  # an equal string from elsewhere (config file, CLI), not the literal
         self.membrane = gen_membrane(rng, self.mix)
+        if rng.random() < 0.05:
+            import pickle
+
+            self.mix, self.membrane = pickle.loads(pickle.dumps((self.mix, self.membrane)))  # equal values, new identities
         self.pv = Pervaporation(self.membrane, self.mix)
         self.t_feed = pick_temperature(rng, 273.0, 400.0)
         self.comp = pooled_composition(rng) if rng.random() < 0.15 else gen_composition(rng, self.mix, edge=edge)
